@@ -33,7 +33,7 @@ for p in props:
 fix_commits = subprocess.run(["git", "-C", "/repo", "log", "--format=%h %s", "c85060a..HEAD"], capture_output=True, text=True).stdout.strip().splitlines()
 manifest = {
     "version": 1,
-    "setup_cmd": "cd /verif/harness && CARGO_NET_OFFLINE=true cargo build --release --workspace",
+    "setup_cmd": "cd /verif/harness && CARGO_NET_OFFLINE=true cargo build --release --workspace && CARGO_NET_OFFLINE=true cargo build --release -p vdet --features serial && CARGO_NET_OFFLINE=true cargo build --release -p vdet --features concurrent --target-dir /verif/harness/target-concurrent && CARGO_NET_OFFLINE=true cargo build --release -p vdet --features async --target-dir /verif/harness/target-async",
     "hooks": {
         "guard": "winterfell_verif",
         "enable": "no hooks are used: every check reaches the code through public API (DESIGN.md section 8); the name is reserved (RUSTFLAGS=--cfg winterfell_verif)",
